@@ -61,8 +61,9 @@ func archModel(name string) (tr Triple3, parts int) {
 	}
 }
 
-// archEqualsModel compares a parsed Arch with the model of its name; the ABI
-// of a two-part name is not judged here (C05/C06 territory).
+// archEqualsModel compares a parsed Arch with the model of its name without
+// judging the ABI of a two-part name (kept for reference; since the F38 repair
+// both entry points give "any" there and the checks use fullArchEq).
 func archEqualsModel(a dependency.Arch, name string) bool {
 	m, parts := archModel(name)
 	if a.OS != m.OS || a.CPU != m.CPU {
@@ -407,7 +408,7 @@ func comparePossiToAlt(p dependency.Possibility, a AltAST) error {
 		if p.Arch == nil {
 			return errf("%s: arch qualifier %q lost", a.Name, a.Qual)
 		}
-		if !archEqualsModel(*p.Arch, a.Qual) {
+		if !fullArchEq(*p.Arch, a.Qual) {
 			return errf("%s: arch qualifier %q parsed as %+v", a.Name, a.Qual, *p.Arch)
 		}
 	}
@@ -433,7 +434,7 @@ func comparePossiToAlt(p dependency.Possibility, a AltAST) error {
 		return errf("%s: architecture negation %v, want %v", a.Name, gotNot, a.ArchNot)
 	}
 	for k, n := range a.Archs {
-		if !archEqualsModel(gotArchs[k], n) {
+		if !fullArchEq(gotArchs[k], n) {
 			return errf("%s: architecture %d %q parsed as %+v", a.Name, k, n, gotArchs[k])
 		}
 	}
